@@ -13,4 +13,4 @@ Separate Extraction
   PoolLinks.merge_from PoolLinks.merge_from_prefix PoolLinks.move_to_head PoolLinks.delete_buffer PoolLinks.append_new_buffer
   PoolLinks.heap_of_lists PoolLinks.list_of
   PoolConc.empty_world PoolConc.Allocate PoolConc.Deallocate PoolConc.DeallocateAll PoolConc.DeallocateIf PoolConc.MergeFrom
-  PoolConc.chain_of PoolConc.getp.
+  PoolConc.chain_of PoolConc.getp PoolConc.Swap PoolConc.MoveAssign.
